@@ -71,6 +71,7 @@ def drive(pid, binp, scripts, work, V):
     traces = []
     start = 0
     part = 0
+    panics = 0
     while start < len(scripts):
         part += 1
         cf = os.path.join(work, "scripts%d.ndjson" % part)
@@ -92,6 +93,11 @@ def drive(pid, binp, scripts, work, V):
                 first = [l for l in msg.splitlines() if l.startswith("panic:") or l.startswith("fatal error:")]
                 V.violation("conn:C23:panic", "the connection panicked while handling a server payload: %s" % (first[:1] or [""])[0],
                             {"kind": "conn", "case": scripts[bad], "stderr": msg[-1500:]})
+                panics += 1
+                if panics >= 5:
+                    log("conn %s: the driver process was killed by a panic inside the library %d times; the remaining %d scripts are not run" % (
+                        pid, panics, len(scripts) - bad - 1))
+                    break
             else:
                 raise vlib.Infra("conndrv died in script %d: %s" % (bad, msg[-1500:]))
         else:
